@@ -457,7 +457,6 @@ long long c_delineate_flowpathlengths_in_catchment(long long nrows,
     double * flowpathlengths)
 {
     long long ierr=0, ierr_down=0, i, ipath, idxcell_up[1], idxcell_down[1];
-    long long diff;
     double squaredist, length;
 
     /* Loop through all cells in catchment area */
@@ -485,8 +484,8 @@ long long c_delineate_flowpathlengths_in_catchment(long long nrows,
                 break;
 
             /* Compute distance between up and down cell */
-            diff = abs(*idxcell_down - *idxcell_up);
-            squaredist = diff == 1 || diff == ncols ? 1 : 2;
+            squaredist = (*idxcell_down%ncols == *idxcell_up%ncols) ||
+                (*idxcell_down/ncols == *idxcell_up/ncols) ? 1 : 2;
 
             /* Iterate */
             *idxcell_up = *idxcell_down;
@@ -499,8 +498,8 @@ long long c_delineate_flowpathlengths_in_catchment(long long nrows,
         if(ipath < nval && *idxcell_down >= 0)
         {
             /* Compute distance between up and down cell */
-            diff = abs(*idxcell_down - *idxcell_up);
-            squaredist = diff == 1 || diff == ncols ? 1 : 2;
+            squaredist = (*idxcell_down%ncols == *idxcell_up%ncols) ||
+                (*idxcell_down/ncols == *idxcell_up/ncols) ? 1 : 2;
             length += sqrt(squaredist);
         }
 
